@@ -396,8 +396,8 @@ func checkC17(c *an.Ctx) {
 			lsite = s
 		}
 	}
-	good := gsite != nil && lsite != nil && an.Dominates(gsite, lsite)
-	c.Check(good, "C17.5", an.Short(load)+":global-first", load.Pos(), "the global configuration is loaded before the project file", "Load does not load the global configuration before the project file")
+	_ = lsite
+	loadPipeline(c, "C17.5", load, map[string]bool{"global-first": true}, false)
 	if gsite != nil {
 		fate := p.ErrFate(gsite, noReturn)
 		c.Check(fate.Kind == "propagated" || fate.Kind == "converted", "C17.5", an.Short(load)+":err(LoadGlobalConfig)", gsite.Pos(), "a broken global configuration fails the load", "a broken global configuration is ignored: "+fate.Detail)
